@@ -5,6 +5,7 @@ import (
 	"math"
 	"runtime/debug"
 	"strings"
+	"unicode/utf8"
 
 	"github.com/vedadiyan/genql"
 	sanitize "github.com/vedadiyan/genql/sanitizer"
@@ -15,7 +16,7 @@ import (
 	"verifharness/internal/val"
 )
 
-var c16Floor = []string{"tpl.echo", "tpl.where", "tpl.in", "tpl.between", "tpl.func", "tpl.limit", "tpl.adjacent", "tpl.repeat", "tpl.protected.single", "tpl.protected.double", "tpl.protected.backtick", "tpl.protected.backtick-backslash", "tpl.protected.comment", "tpl.pg-ident", "tpl.idiomatic-array", "comment.tab", "comment.backslash-eol", "arg.float.huge", "err.missing.huge", "comment.hash", "comment.block-not-nested", "comment.minus-minus", "tpl.badutf8", "tpl.protected.backslash", "err.nan",
+var c16Floor = []string{"tpl.echo", "tpl.where", "tpl.in", "tpl.between", "tpl.func", "tpl.limit", "tpl.adjacent", "tpl.repeat", "tpl.protected.single", "tpl.protected.double", "tpl.protected.backtick", "tpl.protected.backtick-backslash", "tpl.protected.comment", "tpl.pg-ident", "tpl.idiomatic-array", "comment.tab", "comment.backslash-eol", "arg.float.huge", "err.missing.huge", "comment.hash", "comment.block-not-nested", "comment.minus-minus", "comment.banner", "str.bad-utf8", "tpl.badutf8", "tpl.protected.backslash", "err.nan",
 	"arg.string", "arg.int", "arg.int.native", "arg.float.native", "arg.negint", "arg.float", "arg.bool", "arg.nil", "str.quote", "str.backslash", "str.comment", "str.control", "str.keyword", "str.multibyte", "err.missing", "err.unused", "err.dollar0", "prepared", "concurrent"}
 
 func init() {
@@ -43,7 +44,7 @@ func init() {
 }
 
 var c16Atoms = []string{"'", "''", "\"", "`", "\\", "\\'", "\\\\", "-", "--", "-- ", "/", "*", "/*", "*/", "#", ";", "\x00", "\n", "\r", "\t", " ", "$", "$1", "$2", "%", "_", "0", "1", "a", "B", "x",
-	"é", "日", "€", " ", " OR 1=1 -- ", "' OR ''='", "' UNION SELECT ", "\\' OR 1=1 -- ", "NULL", "true", ")", "(", ",", "e'", "E'", "\\Z", "\\0", "\\n", "\\%", " "}
+	"é", "日", "€", " ", " OR 1=1 -- ", "' OR ''='", "' UNION SELECT ", "\\' OR 1=1 -- ", "NULL", "true", ")", "(", ",", "e'", "E'", "\\Z", "\\0", "\\n", "\\%", " ", "\xe9", "\xff", "\xc3", "caf\xe9", "\xf0\x9f", "\x80'"}
 
 func c16String(c *fw.Case, feats *[]string) string {
 	n := c.Intn(8)
@@ -72,6 +73,9 @@ func c16String(c *fw.Case, feats *[]string) string {
 			*feats = append(*feats, "str.multibyte")
 			break
 		}
+	}
+	if !utf8.ValidString(s) {
+		*feats = append(*feats, "str.bad-utf8")
 	}
 	return s
 }
@@ -273,6 +277,8 @@ func c16Run(c *fw.Case) {
 		kind, variant = "tpl.protected.comment", 7
 	case "comment.minus-minus":
 		kind, variant = "tpl.protected.comment", 8
+	case "comment.banner":
+		kind, variant = "tpl.protected.comment", 6
 	}
 	if force == "concurrent" {
 		force = ""
@@ -396,6 +402,15 @@ func c16Run(c *fw.Case) {
 			}
 			t.note = "minus-minus"
 			feats = append(feats, "comment.minus-minus")
+		case 6:
+			// block comments that end in more than one star (banners, doc comments)
+			t.pieces = gen.Pick(c.R, [][]string{
+				{"SELECT /**** banner $9 ****/ ", " AS v /** $8 **/ FROM dual /*****/"},
+				{"/********\n * report $9\n ********/ SELECT ", " AS v FROM dual"},
+				{"SELECT /** note **/ ", " AS v FROM dual WHERE '$9 */' != '/* $8'"},
+				{"SELECT /***/ ", " AS v /* ** $7 ***/ FROM dual"},
+			})
+			feats = append(feats, "comment.banner")
 		case 3:
 			// a backslash at the end of a line comment hides nothing: the
 			// placeholder on the next line is a placeholder
